@@ -13,6 +13,40 @@ LEN_EDGES = (0, 1, 2, 3, 0x4a, 0x4b, 0x4c, 0x4d, 0x4e, 0x4f, 0xfe, 0xff, 0x100, 
              0x10000, 0x10001)
 
 
+class BytesInputMismatch(Exception):
+    pass
+
+
+class OneShot:
+    """An iterable whose __iter__ may be called once only (a second walk raises)."""
+    def __init__(self, items):
+        self._items = list(items)
+        self._used = False
+
+    def __iter__(self):
+        if self._used:
+            raise RuntimeError('one-shot iterable walked twice')
+        self._used = True
+        return iter(self._items)
+
+
+def _genfn(items):
+    for x in items:
+        yield x
+
+
+# every kind of iterable CScript(...) accepts "a sequence" as; each entry builds a fresh container
+CONTAINERS = (
+    ('list', lambda o: list(o)),
+    ('tuple', lambda o: tuple(o)),
+    ('genexp', lambda o: (x for x in o)),
+    ('iter', lambda o: iter(list(o))),
+    ('oneshot', lambda o: OneShot(o)),
+    ('map', lambda o: map(lambda x: x, o)),
+    ('genfn', lambda o: _genfn(o)),
+)
+
+
 def random_fixed():
     """content generator for deterministic shape enumerations (same list in every shard)"""
     return random.Random('c08-shapes')
@@ -63,6 +97,12 @@ class C08(Prop):
             'cooked iteration, every predicate and both sigop modes; grammar-generated scripts with every '
             'truncation, non-canonical PUSHDATA1/2/4, witness-program/P2SH/v0 shapes and their one-byte mutants; '
             'number codec on edge and random integers and on arbitrary (non-minimal) byte strings; '
+            'every token sequence is built from a list, tuple, generator expression, iter(list), one-shot iterable '
+            '(second __iter__ raises), map object and generator function, with byte strings given as bytes, '
+            'bytearray and alternating, and all must give the same CScript; the rebuild is taken straight from the '
+            "script's own cooked iteration (iter/list/genexp/tuple/one-shot/map of the script) and from every "
+            'container kind; script + token with bytes and bytearray operands on scripts made from bytes and from '
+            'bytearray; every byte-string input is also fed as bytearray; '
             'non-trivial = non-empty argument; distinct by canonical request line')
 
     # ------------------------------------------------------------------------------------------
@@ -93,6 +133,40 @@ class C08(Prop):
         if isinstance(o, (bytes, bytearray)):
             return 'd:' + bytes(o).hex()
         return 'other:' + type(o).__name__
+
+    def script_of(self, hexstr):
+        """CScript from bytes; the same from a bytearray must be an equal CScript (raises otherwise)."""
+        raw = bytes.fromhex(hexstr)
+        s = self.SC.CScript(raw)
+        s2 = self.SC.CScript(bytearray(raw))
+        if type(s) is not self.SC.CScript or type(s2) is not self.SC.CScript or bytes(s) != raw or bytes(s2) != raw:
+            raise BytesInputMismatch()
+        return s
+
+    def build_all(self, objs, what):
+        """Build from every container kind (and with byte strings given as bytearray / alternating); all
+        results must be the same CScript bytes.  Returns (hex, None) or (None, description of the disagreement)."""
+        SC = self.SC
+        variants = [(name, mkc, objs) for name, mkc in CONTAINERS]
+        if any(isinstance(o, (bytes, bytearray)) for o in objs):
+            ba = [bytearray(o) if isinstance(o, bytes) else o for o in objs]
+            mixed = [bytearray(o) if isinstance(o, bytes) and i % 2 else o for i, o in enumerate(objs)]
+            variants += [('list-bytearray', list, ba), ('genexp-mixed', lambda o: (x for x in o), mixed),
+                         ('oneshot-bytearray', OneShot, ba)]
+        outs = []
+        for name, mkc, o in variants:
+            def f():
+                r = SC.CScript(mkc(o))
+                if type(r) is not SC.CScript:
+                    return 'not-a-CScript'
+                return bytes(r).hex()
+            outs.append((name, guarded(f)))
+        first = outs[0][1]
+        bad = [(n, v) for n, v in outs if v != first]
+        if bad:
+            n, v = bad[0]
+            return None, '%s-container-mismatch list=%s %s=%s' % (what, first[:80], n, v[:80])
+        return first, None
 
     def cooked_text(self, script, objs_out=None):
         toks, err = [], ''
@@ -414,29 +488,71 @@ class C08(Prop):
         if op == 'c08.build':
             def f():
                 toks = [self.tok_obj(t) for t in a[0].split(',')] if a[0] else []
+                h, bad = self.build_all(toks, 'build')
+                if bad:
+                    return bad
+                if h.startswith('err:') or h == 'not-a-CScript':
+                    return h
                 s = SC.CScript(toks)
-                if type(s) is not SC.CScript:
-                    return 'not-a-CScript'
                 objs = []
                 cooked = self.cooked_text(s, objs)
-                re = guarded(lambda: bytes(SC.CScript(objs)).hex())
-                return bytes(s).hex() + ' ' + cooked + ' ' + re
+                # rebuild clause: straight from the script's own cooked iteration, and from every container
+                re = None
+                if not cooked.endswith(']'):
+                    re = guarded(lambda: bytes(SC.CScript(objs)).hex())
+                else:
+                    direct = [('iter(script)', lambda: SC.CScript(iter(s))),
+                              ('list(script)', lambda: SC.CScript(list(s))),
+                              ('genexp(script)', lambda: SC.CScript(x for x in s)),
+                              ('tuple(script)', lambda: SC.CScript(tuple(s))),
+                              ('oneshot(script)', lambda: SC.CScript(OneShot(s))),
+                              ('map(script)', lambda: SC.CScript(map(lambda x: x, s)))]
+                    re, bad = self.build_all(objs, 'rebuild')
+                    if bad:
+                        return bad
+                    for name, fn in direct:
+                        def g():
+                            r = fn()
+                            return bytes(r).hex() if type(r) is SC.CScript else 'not-a-CScript'
+                        v = guarded(g)
+                        if v != re:
+                            return 'rebuild-container-mismatch list=%s %s=%s' % (re[:80], name, v[:80])
+                # bytes / bytearray inputs give the same script
+                for kind in (bytes, bytearray):
+                    r = SC.CScript(kind(bytes(s)))
+                    if type(r) is not SC.CScript or bytes(r) != bytes(s):
+                        return 'bytes-input-mismatch %s' % kind.__name__
+                return h + ' ' + cooked + ' ' + re
             return guarded(f)
         if op == 'c08.add':
             def f():
-                r = SC.CScript(bytes.fromhex(a[0])) + self.tok_obj(a[1])
-                if type(r) is not SC.CScript:
-                    return 'not-a-CScript'
-                return bytes(r).hex()
+                raw = bytes.fromhex(a[0])
+                tok = self.tok_obj(a[1])
+                toks = [tok] + ([bytearray(tok)] if isinstance(tok, bytes) else [])
+                outs = []
+                for base in (SC.CScript(raw), SC.CScript(bytearray(raw))):
+                    for t in toks:
+                        def g():
+                            r = base + t
+                            return bytes(r).hex() if type(r) is SC.CScript else 'not-a-CScript'
+                        outs.append(guarded(g))
+                if any(o != outs[0] for o in outs):
+                    return 'add-input-mismatch ' + ' '.join(o[:60] for o in outs)
+                return outs[0]
             return guarded(f)
         if op == 'c08.pushdata':
-            return guarded(lambda: bytes(SC.CScriptOp.encode_op_pushdata(bytes.fromhex(a[0]))).hex())
+            def f():
+                d = bytes.fromhex(a[0])
+                r1 = bytes(SC.CScriptOp.encode_op_pushdata(d)).hex()
+                r2 = bytes(SC.CScriptOp.encode_op_pushdata(bytearray(d))).hex()
+                return r1 if r1 == r2 else 'bytearray-input-mismatch %s %s' % (r1[:60], r2[:60])
+            return guarded(f)
         if op == 'c08.cooked':
-            return guarded(lambda: self.cooked_text(SC.CScript(bytes.fromhex(a[0]))))
+            return guarded(lambda: self.cooked_text(self.script_of(a[0])))
         if op == 'c08.raw':
             def f():
                 out, err = [], ''
-                it = SC.CScript(bytes.fromhex(a[0])).raw_iter()
+                it = self.script_of(a[0]).raw_iter()
                 while True:
                     try:
                         (o, d, idx) = next(it)
@@ -449,7 +565,10 @@ class C08(Prop):
                 return '[' + ''.join(out) + ']' + err
             return guarded(f)
         if op == 'c08.preds':
-            s = SC.CScript(bytes.fromhex(a[0]))
+            try:
+                s = self.script_of(a[0])
+            except Exception as e:  # noqa: BLE001
+                return 'err:' + exc_family(e)
 
             def b(fn):
                 def g():
@@ -474,7 +593,7 @@ class C08(Prop):
             return ' '.join(parts)
         if op == 'c08.sigops':
             def f():
-                n = SC.CScript(bytes.fromhex(a[0])).GetSigOpCount(a[1] == '1')
+                n = self.script_of(a[0]).GetSigOpCount(a[1] == '1')
                 if type(n) is not int:
                     return 'nonint:%r' % (n,)
                 return str(n)
@@ -501,6 +620,9 @@ class C08(Prop):
         if op == 'c08.vch2bn':
             def f():
                 v = BN.vch2bn(bytes.fromhex(a[0]))
+                v2 = BN.vch2bn(bytearray.fromhex(a[0]))
+                if v != v2:
+                    return 'bytearray-input-mismatch %r %r' % (v, v2)
                 return 'none' if v is None else str(v)
             return guarded(f)
         raise ValueError(op)
